@@ -221,7 +221,10 @@ def _bencode_to_file(data, f):
         _encode_buffer(data, f)
     elif isinstance(data, Mapping):
         _encode_mapping(data, f)
-    elif isinstance(data, Iterable):
+    elif isinstance(data, (list, tuple)):
+        # Only sequences with a defined order are encodable. Other iterables (sets, generators,
+        # bytearrays, ranges, ...) would be encoded like the list of their items, in an order that
+        # may differ between processes.
         _encode_iterable(data, f)
     else:
         raise TypeError(
